@@ -606,7 +606,22 @@ QUICK_SCENARIO = {
 }
 
 
-def thorough_scenarios(rng, env):
+QUICK_SCENARIO2 = {
+    "conf": {"user": ["str", "65534"], "group": ["int", 65534], "ig": False, "umask": 0o22, "workers": 1,
+             "worker_class": "gthread", "timeout": 2},
+    "fake": False, "mgroups": [],
+    "events": [["usr2", 0], ["kill", 1], ["hup", 0, None], ["ttin", 1], ["ttou", 0]],
+}
+
+
+def thorough_scenarios(rng, env, rounds=1):
+    out = []
+    for _ in range(rounds):
+        out += thorough_scenarios1(rng, env)
+    return out
+
+
+def thorough_scenarios1(rng, env):
     scens = []
     confs = [
         {"user": ["str", "nobody"], "group": ["str", "nogroup"], "ig": False},
@@ -628,7 +643,9 @@ def thorough_scenarios(rng, env):
                 evs.append(["kill", rng.randrange(8)])
             elif x < 0.5:
                 alt = rng.choice(confs[:4])
-                evs.append(["hup", rng.randrange(2), rng.choice([None, {"user": alt["user"], "group": alt["group"], "ig": alt["ig"]}])])
+                # always the oldest live master: a HUP to a re-executed master whose parent is still alive makes it
+                # exit (reload() -> Pidfile.create finds the parent's pid file: RuntimeError) - not a C20 matter
+                evs.append(["hup", 0, rng.choice([None, {"user": alt["user"], "group": alt["group"], "ig": alt["ig"]}])])
             elif x < 0.65 and not usr2_done:
                 evs.append(["usr2", 0])
                 usr2_done = True
@@ -732,9 +749,9 @@ def run(ctx):
         ctx.extra["fake_group_db_in_private_mount_namespace"] = bool(env["fake_text"])
         ctx.extra["system_users_with_supplementary_groups"] = sorted(n for n in env["db"][False].unames if env["db"][False].memberships(n))
         quick = ctx.quick()
-        cells = identity_cells(env, ctx.rng, 150 if quick else 1500)
-        cells += worker_cells(env, L.WORKER_CLASSES, ctx.rng, 8 if quick else 120)
-        cells += socket_cells(env, ctx.rng, 10 if quick else 120)
+        cells = identity_cells(env, ctx.rng, 150 if quick else 6000)
+        cells += worker_cells(env, L.WORKER_CLASSES, ctx.rng, 8 if quick else 400)
+        cells += socket_cells(env, ctx.rng, 10 if quick else 300)
         t = time.time()
         cases, fails = run_cells(ctx, env, cells)
         ctx.log("%d real cells (identity/worker/socket) in %.1fs; oracle failures: %d" % (len(cells), time.time() - t, len(fails)))
@@ -742,7 +759,7 @@ def run(ctx):
             ctx.sample(describe(c))
         report_fails(ctx, fails)
         # level 4
-        scens = [QUICK_SCENARIO] if quick else [QUICK_SCENARIO] + thorough_scenarios(ctx.rng, env)
+        scens = [QUICK_SCENARIO, QUICK_SCENARIO2] if quick else [QUICK_SCENARIO, QUICK_SCENARIO2] + thorough_scenarios(ctx.rng, env, 4)
         hist_cases = []
         for scen in scens:
             t = time.time()
